@@ -459,6 +459,37 @@ def msg_from_M(mtxt, serial):
     return m
 
 
+# ------------------------------------------------------------------ source drift (heuristic; never a verdict by itself)
+
+ANCHOR_FILES = ["rustbus/src/wire/marshal.rs", "rustbus/src/wire/unmarshal.rs", "rustbus/src/wire/util.rs",
+                "rustbus/src/wire/unmarshal_context.rs", "rustbus/src/wire/validate_raw.rs", "rustbus/src/params/validation.rs",
+                "rustbus/src/message_builder.rs", "rustbus/src/standard_messages.rs", "rustbus/src/connection/ll_conn.rs"]
+ANCHOR_HASH = "eea671ac3722460d"
+
+
+def anchor_hash():
+    import hashlib
+    h = hashlib.blake2b(digest_size=8)
+    for f in ANCHOR_FILES:
+        try:
+            txt = open(os.path.join(vlib.REPO, f)).read()
+        except OSError:
+            txt = "<missing>"
+        # comments and white space do not count
+        txt = re.sub(r"//[^\n]*", "", txt)
+        h.update(" ".join(txt.split()).encode())
+    return h.hexdigest()
+
+
+def drifted(ctx):
+    """True when the anchored sources differ from the text the models were written against: the quick tier
+    then runs with the thorough generators. Recorded in the evidence; never a verdict by itself."""
+    h = anchor_hash()
+    ctx.extra["anchor_hash"] = h
+    ctx.extra["source_drift"] = (h != ANCHOR_HASH)
+    return h != ANCHOR_HASH
+
+
 def builds(ctx):
     exe = vlib.harness_build(["c05"])["c05"]
     vlib.coq_make(["Msg/Ops.vo"])
@@ -476,7 +507,7 @@ def sig_verdicts(drv, sigs):
 
 
 def run(ctx):
-    thorough = ctx.tier == "thorough"
+    thorough = ctx.tier == "thorough" or drifted(ctx)
     ctx.rule = ("messages = 4 types (+Invalid) x subsets of the 7 optional header fields (thorough: all 128 subsets x both byte "
                 "orders x name lengths over every residue mod 8) x valid names of swept lengths / one invalid name from a list "
                 "of single-fault names x flags 0..255 (cycled, so every flag byte occurs in both byte orders) x boundary serials x "
@@ -537,6 +568,22 @@ def run(ctx):
                 idx += 1
                 msgs.append(m)
                 lines.append(m.line())
+    # name lengths over every residue mod 8 (interface x member x path), all seven fields present, both byte orders
+    step = 1 if thorough else 3
+    for li in range(3, 11, step):
+        for lm in range(1, 9, step):
+            for lp in range(1, 9, step):
+                for bo in (0, 1):
+                    m = gen_msg(r, idx * 2 + bo, 127)
+                    idx += 1
+                    m.kinds = ["residues"]
+                    m.typ = 4
+                    v = gen_valid_names(r)
+                    m.rs = m.rs or 1
+                    m.iface, m.member, m.path = iface_of_len(r, li), member_of_len(r, lm), path_of_len(r, lp)
+                    m.dest, m.sender, m.err = v["dest"], v["sender"], v["err"]
+                    msgs.append(m)
+                    lines.append(m.line())
     while len(lines) < n + ncorpus:
         m = gen_msg(r, idx)
         idx += 1
